@@ -56,6 +56,12 @@ func sitev() bool { return true }`, "sitev", []string{"N:db.Error"}, nil},
 	{"implication-at-merge", `func f(db *DB) { if db.Error == nil || db.DryRun { other() }; if db.DryRun { site() } }`, "site", []string{"C:p.other"}, nil},
 	{"implication-survives-loop", `func f(db *DB, n int) { if db.Stmt != nil { other() }; for i := 0; i < n; i++ { cond() }; if db.Stmt != nil { site() } }`, "site", []string{"C:p.other"}, nil},
 	{"implication-killed", `func f(db *DB) { if db.Stmt != nil { other() }; db.Stmt = &Stmt{}; if db.Stmt != nil { site() } }`, "site", nil, []string{"C:p.other"}},
+	{"predicate-helper-inlined", `func pred(d *DB) bool { return d.Error == nil && !d.DryRun }
+func f(db *DB) { if pred(db) { site() } }`, "site", []string{"N:db.Error", "F:db.DryRun"}, nil},
+	{"predicate-helper-negated", `func skip(d *DB) bool { return d.DryRun || d.Error != nil }
+func f(db *DB) { if skip(db) { return }; site() }`, "site", []string{"N:db.Error", "F:db.DryRun"}, nil},
+	{"predicate-fact-killed", `func pred(d *DB) bool { return d.Error == nil }
+func f(db *DB) { if !pred(db) { return }; kill(db); site() }`, "site", nil, []string{"N:db.Error"}},
 	{"call-kills-config", `func f(db *DB) { if db.Error != nil { return }; kill(db); site() }`, "site", nil, []string{"N:db.Error"}},
 }
 
@@ -103,6 +109,14 @@ func runSelftest() int {
 			continue
 		}
 		p.Fset = fset
+		p.byObj = map[*types.Func]*FuncSrc{}
+		for _, d := range pk.Syntax[0].Decls {
+			if fd, ok := d.(*ast.FuncDecl); ok && fd.Body != nil {
+				if sf := snippetFunc(pk, fd.Name.Name); sf != nil && sf.Obj != nil {
+					p.byObj[sf.Obj] = sf
+				}
+			}
+		}
 		f := snippetFunc(pk, "f")
 		var site *ast.CallExpr
 		for _, call := range callsIn(f) {
